@@ -522,15 +522,38 @@ class World:
 
     def __init__(self, shape: list[Any], layout: str = "plain"):
         lay = LAYOUTS[layout]
+        parts = partials_for(layout)
         self.main = print_template("main", build(shape), lay)
+        _leak_assignments(self.main, parts)
         self.templates: dict[str, Printed] = {"main": self.main}
-        for name, items in partials_for(layout).items():
-            self.templates[name] = items
+        self.templates.update(parts)
         self.by_source: dict[str, Printed] = {p.source: p for p in self.templates.values()}
         assert len(self.by_source) == len(self.templates), "template sources must be distinct"
 
 
 _PARTIAL_CACHE: dict[str, dict[str, Printed]] = {}
+SHARED_SCOPE = ("include", "extends")
+
+
+def _assigned_in(name: str, parts: dict[str, Printed], seen: frozenset[str] = frozenset()) -> set[str]:
+    """Names assigned by template ``name`` or by anything it pulls in with a shared scope."""
+    if name in seen:
+        return set()
+    pt = parts[name]
+    out = {n for _s, _e, n, kind in pt.assigns if kind == "assign"}
+    for _s, _e, site in pt.sites:
+        if site.kind in SHARED_SCOPE and site.partial is not None:
+            out |= _assigned_in(site.partial, parts, seen | {name})
+    return out
+
+
+def _leak_assignments(pt: Printed, parts: dict[str, Printed]) -> None:
+    """An include / extends shares its scope: what the callee assigns is assigned, in source order, at the
+    call site of the caller ("preceded in source order by an assignment to it")."""
+    for s, e, site in pt.sites:
+        if site.kind in SHARED_SCOPE and site.partial is not None:
+            for n in sorted(_assigned_in(site.partial, parts)):
+                pt.assigns.append((s, e, n, "assign"))
 
 
 def partials_for(layout: str) -> dict[str, Printed]:
@@ -538,6 +561,13 @@ def partials_for(layout: str) -> dict[str, Printed]:
     if got is None:
         lay = LAYOUTS[layout]
         got = {name: print_template(name, items, lay) for name, items in PARTIAL_ITEMS.items()}
+        leaks = {name: [(s, e, site.partial) for s, e, site in pt.sites if site.kind in SHARED_SCOPE and site.partial]
+                 for name, pt in got.items()}
+        assigned = {name: _assigned_in(name, got) for name in got}
+        for name, pt in got.items():
+            for s, e, callee in leaks[name]:
+                for n in sorted(assigned[callee]):
+                    pt.assigns.append((s, e, n, "assign"))
         _PARTIAL_CACHE[layout] = got
     return got
 
